@@ -192,6 +192,8 @@ def predicate(line, obs, allow_known=False):
         if i >= len(outs):
             return f"no observation for op {i} {C.sx(op)}"
         o = outs[i]
+        if o.startswith("INSTANCE-MISMATCH"):
+            return f"op {i} {C.sx(op)}: {o[18:300]}"
         if o.startswith("HANG"):
             return f"op {i} {C.sx(op)} never returns (no result after 5 s; the loop of Extend pops from the list it appends to)"
         if o.startswith("PANIC"):
